@@ -103,6 +103,10 @@ func rowsString(rows []sut.WalkRow) string {
 // the *-massive operations run the From-Root side with WithMassive (a single root: the result is schedule-independent)
 // and compare it with the simple From-Markdown result
 var c03Ops = []string{"text", "text-fmt1", "text-fmt5", "json", "yaml", "toml", "walk", "walkiter", "text-massive", "walk-massive", "json-massive"}
+
+// walking with the dry-run option (names are validated): both families must hand the same nodes to the callback
+// before they report the same error
+var c03DryWalkOps = []string{"walk-dry", "walkiter-dry", "walk-dry-massive"}
 var massiveHung bool
 
 // c03Matrix: combinations of output options in various orders (later encodings override earlier ones, options that
@@ -162,6 +166,10 @@ func c03Op(op string, root *gtree.Node, doc string, alias bool) (res opResult, p
 			}
 		}
 		op = "text"
+	}
+	if strings.HasSuffix(op, "-dry") && strings.HasPrefix(op, "walk") {
+		op = strings.TrimSuffix(op, "-dry")
+		opts = append(opts, gtree.WithDryRun())
 	}
 	switch op {
 	case "text-fmt1":
@@ -360,6 +368,9 @@ func c03Sequence(c *rep.Ctx, calls []addCall, withFS bool) {
 	ops := append([]string{}, c03Ops...)
 	if len(calls) <= 4 {
 		ops = append(ops, c03Matrix...)
+	}
+	if len(calls) <= 5 {
+		ops = append(ops, c03DryWalkOps...)
 	}
 	if withFS {
 		ops = append(ops, c03FSOps...)
@@ -589,7 +600,7 @@ func init() {
 			}
 		}
 		// one hostile name at one call position, D <= 4
-		host := []string{"- x", "é日本", "a b", "#h", "x.b", "100%d", "p ├── q", "<&>"}
+		host := []string{"- x", "é日本", "a b", "#h", "x.b", "100%d", "p ├── q", "<&>", " a", "a ", "a\t", "x/y", "..", "."}
 		for D := 1; D <= 4 && !c.Expired(); D++ {
 			for hp := 0; hp < D; hp++ {
 				gen(D, func(i int) []string {
